@@ -35,8 +35,10 @@ CLAIM = {
                  "order taint, decision tables, guard dominance, coverage over the ADT tables",
 }
 
-WRITE_FNS = ("write", "write_names", "write_namespaces", "write_vec", "write_string")
-READ_FNS = ("read", "add_comment", "read_file")
+# public entry points (anchored by name); private helpers are found by role: functions whose writes are inlined into
+# `write`, and the helper the comment rows of `read` hand the line to
+WRITE_FNS = ("write", "write_vec", "write_string")
+READ_FNS = ("read", "read_file")
 
 
 def run(F, R, tier):
@@ -50,7 +52,7 @@ def run(F, R, tier):
     r03_5(q, R, ctx, spec)
     r03_6(q, R, ctx)
     r03_7(q, R)
-    r03_8(q, R)
+    r03_8(q, R, ctx)
     return ("text-layout extraction: the emission term of tiny_v2::write (write!/writeln! templates, helpers inlined) is cut into rows "
             "and columns, each hole traced to the (ADT, field) it prints; tiny_v2::read is abstracted to indentation levels, tag "
             "dispatch and the per-row column consumption (next/into_names/end) with the struct field each column is stored in; "
@@ -85,6 +87,7 @@ def extract(q, R, spec):
     cx.wb, cx.rb = wb, rb
     # ---- writer
     W = U.Writer(q)
+    cx.W = W
     wfn = U.Fn(q, wb)
     cx.wfn = wfn
     try:
@@ -322,6 +325,7 @@ def comment_target(q, cx, fn, call, callee):
             if loc and pids and loc[0] == pids[0]:
                 ch = callee.trace(n["r"])
                 out["value_root"] = ch.root
+                out["value_chain"] = ch
                 out["calls"] = [h[1] for h in ch.hops if h[0] == "call"]
                 out["mk"] = [h for h in ch.hops if h[0] == "mk"]
                 out["assign"] = n
@@ -710,10 +714,26 @@ def r03_5(q, R, cx, spec):
                     "(TinyLine::new) escape replaces it by a sequence free of special characters and unescape maps that sequence "
                     "back; the escape introducer is escaped itself; every comment hole goes through escape and every comment read "
                     "through unescape")
-    esc = q.fn("escape", within="tiny_v2::escape")
-    une = q.fn("unescape", within="tiny_v2::unescape")
-    if not (R.anchor("R03.5", "fn tiny_v2::escape", esc) and R.anchor("R03.5", "fn tiny_v2::unescape", une)):
+    # the two functions are found by role: the repository function every comment hole of the writer goes through, and the one
+    # the stored comment text goes through in the reader's comment helper
+    def crate_calls(ch):
+        return [h[3] for h in ch.hops if h[0] == "call" and len(h) > 3 and h[3] in q.by_key]
+    ekeys, ukeys = set(), set()
+    if cx.ok:
+        for wr in cx.wrows:
+            if wr["owner"] is not None:
+                for role, calls, trait, ch in wr["holes"]:
+                    ekeys.update(crate_calls(ch))
+        for rr in cx.rrows.values():
+            if rr.get("comment") and rr["comment"].get("value_chain") is not None:
+                ukeys.update(crate_calls(rr["comment"]["value_chain"]))
+    esc = q.by_key.get(list(ekeys)[0]) if len(ekeys) == 1 else None
+    une = q.by_key.get(list(ukeys)[0]) if len(ukeys) == 1 else None
+    if not (R.anchor("R03.5", "the escape function applied to the comment holes of tiny_v2::write", esc)
+            and R.anchor("R03.5", "the unescape function applied to comments in tiny_v2::read", une)):
+        R.floor("R03.5", 5 + 8)
         return
+    ename, uname = esc["name"], une["name"]
     et, ut = replace_table(esc), replace_table(une)
     e_single = u_single = False
     if et is None:
@@ -759,14 +779,14 @@ def r03_5(q, R, cx, spec):
             pk = _short_path(wr["path"]) or "<top>"
             for role, calls, trait, ch in wr["holes"]:
                 n += 1
-                R.inst("R03.5", "comment-escaped:%s" % pk, calls == ["escape"] and ch.hops[-1][0] == "call", sp=wr["row"].ctx[-1][1].get("sp"),
+                R.inst("R03.5", "comment-escaped:%s" % pk, crate_calls(ch) == [esc["key"]] and calls == [ename] and ch.hops[-1][0] == "call", sp=wr["row"].ctx[-1][1].get("sp"),
                        expect="escape(&<javadoc>.0)", got=ch.show())
         for k, rr in cx.rrows.items():
             if rr["comment"] is None:
                 continue
             pk = _short_path(rr["path"]) or "<top>"
             c = rr["comment"]
-            R.inst("R03.5", "comment-unescaped:%s" % pk, c["calls"] == ["unescape"] and bool(c["value_root"]) and c["value_root"][0] == "line"
+            R.inst("R03.5", "comment-unescaped:%s" % pk, c["calls"] == [uname] and bool(c["value_root"]) and c["value_root"][0] == "line"
                    and c["value_root"][1] == "end", sp=rr["body"].get("sp"), expect="unescape(line.end()?)", got={"calls": c["calls"], "from": str(c["value_root"][:2]) if c["value_root"] else None})
     R.floor("R03.5", 5 + 8)
 
@@ -790,33 +810,52 @@ def r03_6(q, R, cx):
             key_ok = bool(kch) and kch.root[0] == "param" and kch.root[1] == 1 and [h[1] for h in kch.hops if h[0] == "call"] == ["get_node_info", "get_key"]
             R.inst("R03.6", "add_child:key", ok_scrut and key_ok, sp=m["scrut"].get("sp"), expect="map.entry(child.get_node_info().get_key()?)",
                    got=kch.show() if kch else H.render(sc))
-            for want, must in (("Occupied", "err"), ("Vacant", "insert")):
+            INS = ("insert", "insert_entry", "or_insert", "or_insert_with", "insert_full", "extend", "push", "shift_insert", "insert_sorted")
+            all_ins = [n for n in H.walk(ac["body"]) if n.get("k") == "mcall" and n["name"] in INS]
+            arms = {}
+            for want in ("Occupied", "Vacant"):
                 v = T.V(want, T.sym("e"))
-                arm = None
-                for a in m["arms"]:
+                for ai, a in enumerate(m["arms"]):
                     r = T.match_pat(a["pat"], v, {})
-                    if r is True:
-                        arm = a
+                    if r is True and "guard" not in a:
+                        arms[want] = (ai, a)
                         break
-                    if r is None:
+                    if r is not False:
                         break
-                if arm is None:
-                    R.inst("R03.6", "add_child:%s" % want, False, sp=m.get("sp"), detail="no decidable arm")
-                    continue
-                ins = [n for n in H.walk(arm["body"]) if n.get("k") == "mcall" and n["name"] in ("insert", "insert_entry", "or_insert", "or_insert_with")]
-                if must == "err":
-                    ok = H.is_err_exit(arm["body"]) or (H.diverges(arm["body"]) and H.macro_of(H.peel(arm["body"]), "bail")) or \
-                        any(H.macro_of(x, "bail") for x in H.walk(arm["body"]) if x.get("k") == "ret")
-                    ok = ok and not ins
-                    R.inst("R03.6", "add_child:Occupied", ok, sp=arm["body"].get("sp"), expect="Err(key already exists), no insertion", got=H.render(arm["body"])[:100])
-                else:
-                    b = H.peel(arm["body"])
-                    ok = len(ins) == 1 and H.ctor_of(b) and H.ctor_of(b)[1] == "Ok" and H.local_of(ins[0]["args"][0]) and \
-                        H.local_of(ins[0]["args"][0])[0] == pids[1]
-                    R.inst("R03.6", "add_child:Vacant", bool(ok), sp=arm["body"].get("sp"), expect="Ok(e.insert(child))", got=H.render(arm["body"])[:100])
-            other = [n for n in H.walk(ac["body"]) if n.get("k") == "mcall" and n["name"] in ("insert", "insert_full", "extend", "push", "shift_insert")
-                     and not any(n is x for a in m["arms"] for x in H.walk(a["body"]))]
-            R.inst("R03.6", "add_child:no-other-insert", not other, sp=ac["sp"], got=[H.render(n)[:60] for n in other])
+            # Occupied: reaches only Err, no insertion
+            if "Occupied" in arms:
+                arm = arms["Occupied"][1]
+                ins = [n for n in H.walk(arm["body"]) if n.get("k") == "mcall" and n["name"] in INS]
+                ok = (H.is_err_exit(arm["body"]) or any(H.is_err_exit(x) for x in H.walk(arm["body"]) if x.get("k") == "ret")) \
+                    and H.diverges(arm["body"]) and not ins
+                R.inst("R03.6", "add_child:Occupied", ok, sp=arm["body"].get("sp"), expect="Err(key already exists), no insertion", got=H.render(arm["body"])[:100])
+            else:
+                R.inst("R03.6", "add_child:Occupied", False, sp=m.get("sp"), detail="no decidable arm for Entry::Occupied")
+            # Vacant: the one insertion of the function is VacantEntry::insert(child) on the Vacant payload of this entry, reached only
+            # for Vacant (inside that arm, or after the match when every other arm diverges), and its result is returned in Ok
+            okv, got = False, None
+            if "Vacant" in arms and len(all_ins) == 1:
+                ai, arm = arms["Vacant"]
+                ins = all_ins[0]
+                f2 = fn.with_sel({id(m): ai})
+                rc = f2.trace(ins["recv"])
+                got = rc.show()
+                from_vacant = rc.root[0] == "param" and rc.root[1] == 0 and [h[1] for h in rc.hops if h[0] == "call"] == ["entry"] \
+                    and [h[:3] for h in rc.hops if h[0] == "v"] == [("v", "Entry", "Vacant")]
+                child = ins["name"] == "insert" and len(ins["args"]) == 1 and H.local_of(ins["args"][0]) and H.local_of(ins["args"][0])[0] == pids[1]
+                inside = any(x is ins for x in H.walk(arm["body"]))
+                others_diverge = all(H.diverges(a["body"]) for a in m["arms"] if a is not arm)
+                in_match = any(x is ins for x in H.walk(m))
+                reached_only = inside or (not in_match and others_diverge)
+                # returned: Ok(<insert>) is the function result (tail / return), possibly through the match value
+                par = fn.parent.get(id(ins))
+                wrapped = par is not None and par.get("k") == "call" and H.ctor_of(par) and H.ctor_of(par)[1] == "Ok"
+                okv = bool(from_vacant and child and reached_only and wrapped)
+                if not okv:
+                    got = {"receiver": got, "from_vacant": from_vacant, "child": bool(child), "reached_only_for_vacant": reached_only, "Ok(..)": bool(wrapped)}
+            R.inst("R03.6", "add_child:Vacant", okv, sp=(all_ins[0] if all_ins else m).get("sp"),
+                   expect="exactly one insertion: Ok(<Vacant entry of map.entry(key)>.insert(child))", got=got if got else [H.render(x)[:60] for x in all_ins])
+            R.inst("R03.6", "add_child:no-other-insert", len(all_ins) <= 1, sp=ac["sp"], got=[H.render(n)[:60] for n in all_ins])
     # get_key tables
     want = {("FieldNameAndDesc", "desc"): ("FieldMapping", "desc", None), ("FieldNameAndDesc", "name"): ("FieldMapping", "names", 0),
             ("MethodNameAndDesc", "desc"): ("MethodMapping", "desc", None), ("MethodNameAndDesc", "name"): ("MethodMapping", "names", 0),
@@ -856,21 +895,27 @@ def r03_6(q, R, cx):
             info = cx.info_of.get(cx.maps[rr["adds"]][1])
             built = ch.root[0] == "struct" and U.short(ch.root[1].get("adt")) == info and any(x is ch.root[1] for x in H.walk(rr["body"]))
             R.inst("R03.6", "read:adds-own-row:%s" % rr["adds"], built, sp=call.get("sp"), expect="node built from the %s literal of the same row" % info, got=ch.show())
-    # a second comment is rejected
-    cm = q.fn("add_comment", within="tiny_v2::add_comment")
-    if R.anchor("R03.6", "fn tiny_v2::add_comment", cm):
+    # a second comment is rejected: the helper(s) the comment rows hand the line to
+    helpers = {}
+    if cx.ok:
+        for rr in cx.rrows.values():
+            if rr.get("comment") and rr["comment"].get("callee") is not None:
+                helpers[rr["comment"]["callee"].body["key"]] = rr["comment"]["callee"].body
+    if R.anchor("R03.6", "comment helper called by the comment rows of tiny_v2::read", len(helpers) == 1, sp=getattr(cx, "rb", {}).get("sp") if cx.ok else None):
+        cm = list(helpers.values())[0]
         asg = [n for n in H.walk(cm["body"]) if n.get("k") == "assign"]
         ok = False
         got = None
         if len(asg) == 1:
             pid = H.param_ids(cm)[0]
             st = U.option_conditions(cm["body"], asg[0], pid)
-            ok = st == {"none"}
-            got = sorted(st)
+            got = {"assignment when": sorted(st)}
             # the other side must be an error
-            errs = [n for n in H.walk(cm["body"]) if n.get("k") == "ret" and H.macro_of(n, "bail")]
-            ok = ok and bool(errs)
-        R.inst("R03.6", "comment-once", ok, sp=cm["sp"], expect="*javadoc = Some(..) only when javadoc is None, otherwise Err", got=got)
+            errs = [n for n in H.walk(cm["body"]) if n.get("k") == "ret" and H.is_err_exit(n)
+                    and U.option_conditions(cm["body"], n, pid) == {"some"}]
+            got["error when some"] = len(errs)
+            ok = st == {"none"} and bool(errs)
+        R.inst("R03.6", "comment-once", ok, sp=cm["sp"], expect="*javadoc = Some(..) only when javadoc is None, Err when it is Some", got=got)
     R.floor("R03.6", 4 + 6 + 4 + 1 + 8 + 1)
 
 
@@ -918,23 +963,18 @@ def r03_7(q, R):
                         and H.ctor_of(H.peel(b["args"][0]))[1] == "Err"
                     exp = "Some(Err(..))"
                 R.inst("R03.7", "next:%s" % variant, bool(ok), sp=arm["body"].get("sp"), expect=exp, got=H.render(b)[:80])
-            # the outer match: Err(_) line is handed on; peek()? ends the iteration
-            outer = [n for n in H.walk(nx["body"]) if n.get("k") == "match" and n is not m and any(x is m for x in H.walk(n))]
-            ok = False
-            got = None
-            if len(outer) == 1:
-                o = outer[0]
-                sc = H.peel(o["scrut"])
-                peek = sc.get("k") == "try" and H.peel(sc["e"]).get("k") == "mcall" and H.peel(sc["e"])["name"] == "peek"
-                err_arm = None
-                for a in o["arms"]:
-                    if T.match_pat(a["pat"], T.V("Err", T.sym("e")), {}) is True:
-                        err_arm = a
-                        break
-                eb = H.peel(err_arm["body"]) if err_arm else {}
-                ok = peek and eb.get("k") == "mcall" and eb["name"] == "next" and H.place_root(eb["recv"])[1][-1:] == ["iter"]
-                got = H.render(eb)[:60]
-            R.inst("R03.7", "next:error-line-passed-on", bool(ok), sp=nx["sp"], expect="match self.iter.peek()? { Err(_) => self.iter.next(), .. }", got=got)
+            # an Err item at the front is handed on as it is (whatever the depth); an exhausted iterator ends the level (`peek()?`)
+            def is_peek(e):
+                e = H.peel(e, tries=True)
+                return e.get("k") == "mcall" and e["name"] == "peek" and H.place_root(e["recv"])[1][-1:] == ["iter"]
+            peeks = [n for n in H.walk(nx["body"]) if n.get("k") == "try" and is_peek(n)]
+            nexts = [n for n in H.walk(nx["body"]) if n.get("k") == "mcall" and n["name"] == "next" and H.place_root(n["recv"])[1][-1:] == ["iter"]]
+            on_err = [n for n in nexts if U.variant_conditions(nx["body"], n, is_peek) == {"Err"}]
+            on_ok = [n for n in nexts if U.variant_conditions(nx["body"], n, is_peek) == {"Ok"}]
+            cmp_ok = U.variant_conditions(nx["body"], m, is_peek) == {"Ok"}
+            R.inst("R03.7", "next:error-line-passed-on", len(peeks) == 1 and len(on_err) == 1 and len(on_ok) == 1 and cmp_ok and len(nexts) == 2, sp=nx["sp"],
+                   expect="self.iter.peek()? is Err(_) => self.iter.next(); Ok(line) => the indentation comparison",
+                   got={"peek()?": len(peeks), "next() under Err": len(on_err), "next() under Ok": len(on_ok), "comparison under Ok": cmp_ok})
     nw = q.fn("new", impl_ty="WithMoreIdentIter")
     if R.anchor("R03.7", "fn WithMoreIdentIter::new", nw):
         lits = [n for n in H.walk(nw["body"]) if n.get("k") == "struct" and U.short(n.get("adt")) == "WithMoreIdentIter"]
@@ -983,10 +1023,16 @@ def r03_7(q, R):
                     ok = True
                 break
         R.inst("R03.7", "on_every_line:callback-error-propagated", ok, sp=oe["sp"], expect="f(&mut self, line)...?")
-        # the line result is unwrapped with `?`
-        lets = [n for n in H.walk(oe["body"]) if n.get("k") == "let" and "init" in n and H.peel(n["init"], refs=False).get("k") == "try"
-                and (H.peel(n["init"], refs=False)["e"].get("ty") or "").startswith("core::result::Result<L")]
-        R.inst("R03.7", "on_every_line:line-error-propagated", len(lets) == 1, sp=oe["sp"], expect="let line = line?")
+        # the line item (a Result) is unwrapped with `?` or an explicit `Err(e) => return Err(..)`
+        def is_item(e):
+            e = H.peel(e)
+            return (e.get("ty") or "").startswith("core::result::Result<L")
+        props = [n for n in H.walk(oe["body"]) if n.get("k") == "try" and is_item(n["e"])]
+        for n in H.walk(oe["body"]):
+            if n.get("k") == "ret" and H.is_err_exit(n) and U.variant_conditions(oe["body"], n, is_item) == {"Err"}:
+                props.append(n)
+        R.inst("R03.7", "on_every_line:line-error-propagated", len(props) == 1, sp=oe["sp"], expect="let line = line?  (or: Err(e) => return Err(e))",
+               got=len(props))
         nxt = [n for n in H.walk(oe["body"]) if n.get("k") == "mcall" and n["name"] == "next" and H.local_of(n["recv"]) and H.local_of(n["recv"])[0] == pids[0]]
         loops = [n for n in H.walk(oe["body"]) if n.get("k") == "loop"]
         R.inst("R03.7", "on_every_line:every-line", len(nxt) == 1 and len(loops) == 1 and any(x is nxt[0] for x in H.walk(loops[0])), sp=oe["sp"],
@@ -995,7 +1041,7 @@ def r03_7(q, R):
 
 
 # ------------------------------------------------------------------------------------------------ R03.8
-def r03_8(q, R):
+def r03_8(q, R, cx):
     R.rule("R03.8", "no Result value is discarded in the Tiny v2 reader/writer functions and the line helpers (a dropped `?` would turn "
                     "a rejected duplicate, a malformed row or an I/O error into silent data loss)")
     n = 0
@@ -1004,6 +1050,17 @@ def r03_8(q, R):
         b = q.fn(name, within="tiny_v2::" + name)
         if R.anchor("R03.8", "fn tiny_v2::%s" % name, b):
             targets.append(("tiny_v2::" + name, b))
+    if cx.ok:
+        helper_keys = set(cx.W.inlined)
+        for rr in cx.rrows.values():
+            if rr.get("comment") and rr["comment"].get("callee") is not None:
+                helper_keys.add(rr["comment"]["callee"].body["key"])
+        for i, key in enumerate(sorted(helper_keys)):
+            b = q.by_key.get(key)
+            if b is not None and not any(b is t for _, t in targets):
+                role = "writer-helper" if key in cx.W.inlined else "comment-helper"
+                n_same = sum(1 for nm, _ in targets if nm.startswith("tiny_v2::%s#" % role))
+                targets.append(("tiny_v2::%s#%d" % (role, n_same), b))
     for name in ("new", "next", "end", "into_names", "into_namespaces"):
         b = q.fn(name, impl_ty="TinyLine")
         if R.anchor("R03.8", "fn TinyLine::%s" % name, b):
